@@ -64,7 +64,9 @@ RULE = ("histories of 3-7 operations (new / setattr / copy / evolve / construct 
         "run in the shared or a new cache_root / clear_cache) over generated workflow classes (2-3 nodes, int and "
         "list inputs with and without defaults, split/combine nodes, `if <field>:` constructors, lazy-valued "
         "attributes); non-trivial = the model's history takes at least one exact or superset-of-lazy cache hit; "
-        "distinct = different (definitions, history) pairs")
+        "distinct = different (definitions, history) pairs. A second stream (not in the Coq model, compared with the fresh "
+        "process only) runs outer workflows that use a generated class as a node with lazily bound inputs: nested plots, "
+        "runs, setattr, copy, construct, interleaved with direct use of the inner class. Executing histories is time-boxed.")
 
 REPO = os.environ.get("VERIF_REPO", "/repo")
 PY = "/venv/bin/python"
@@ -285,7 +287,11 @@ def gen_history(rng, defs, nops):
             ops.append(["clear", rng.choice([None, None, o["def"], rng.randrange(len(defs))])])
         elif r < 0.58:
             names = [f["name"] for f in d["fields"]]
-            lazy = sorted(set(unset(o)) | set(rng.sample(names, rng.choice([0, 1, 1, 2, len(names)][:len(names) + 1]) if names else 0)))
+            prev = [p[2] for p in ops if p[0] == "wconstruct" and objs[p[1]]["def"] == o["def"]]
+            if prev and rng.random() < 0.45:      # the same lazy set again (exact hits on partly lazy workflows)
+                lazy = sorted(set(unset(o)) | set(rng.choice(prev)))
+            else:
+                lazy = sorted(set(unset(o)) | set(rng.sample(names, rng.choice([0, 1, 1, 2, len(names)][:len(names) + 1]))))
             ops.append(["wconstruct", oi, lazy, rng.random() < 0.12])
         elif unset(o):
             f = rng.choice(unset(o))
@@ -430,6 +436,19 @@ Definition tie_ok (c : case_t) : bool := let '(ops, obs, _) := c in all2 obs_mat
 Definition spec_ok (c : case_t) : bool := let '(ops, obs, _) := c in all2 spec_match (c_spec_history ops) obs.
 Definition fresh_ok (c : case_t) : bool := let '(ops, _, fr) := c in all2 spec_match (c_spec_history ops) fr.
 Definition in_domain (c : case_t) : bool := let '(ops, _, _) := c in negb (c_excluded ops).
+Definition is_hit (o : cobs) : bool :=
+  match o with ObsWf _ Exact | ObsWf _ Superset | ObsOut _ (Some Exact) | ObsOut _ (Some Superset) => true | _ => false end.
+Definition is_sup (o : cobs) : bool :=
+  match o with ObsWf _ Superset | ObsOut _ (Some Superset) => true | _ => false end.
+(* bit mask: 1 tie fails, 2 spec fails, 4 spec != fresh process, 8 outside the domain of C30_partial,
+   16 the model takes a cache hit, 32 ... a superset-of-lazy hit.  Model and spec are evaluated once. *)
+Definition code (c : case_t) : nat :=
+  let '(ops, obs, fr) := c in
+  let m := c_history ops in
+  let s := c_spec_history ops in
+  ((if all2 obs_match m obs then 0 else 1) + (if all2 spec_match s obs then 0 else 2)
+   + (if all2 spec_match s fr then 0 else 4) + (if c_excluded ops then 8 else 0)
+   + (if existsb is_hit m then 16 else 0) + (if existsb is_sup m then 32 else 0))%nat.
 Definition no_hit (c : case_t) : bool :=
   let '(ops, _, _) := c in
   forallb (fun o => match o with ObsWf _ Exact | ObsWf _ Superset | ObsOut _ (Some Exact) | ObsOut _ (Some Superset) => false
@@ -800,17 +819,19 @@ def src_of(defs, outers=()):
     return module_src(defs, outers).split("return sum(a) + b\n")[1].strip()
 
 
-def fresh_interpreter_sample(tmp, items, par=4):
-    """items: (batch, request, zygote answer). Re-ask really fresh interpreters; return the disagreements."""
-    procs, bad = [], []
+def fresh_start(tmp, items):
+    """items: (batch, request, zygote answer). Re-ask really fresh interpreters (started now, collected later)."""
+    procs = []
     for k, (b, req, ans) in enumerate(items):
         inp, outp = os.path.join(tmp, "fin%d.json" % k), os.path.join(tmp, "fout%d.json" % k)
         json.dump({"batches": [b], "mode": "fresh", "request": dict(req, batch=0)}, open(inp, "w"))
-        procs.append((subprocess.Popen([PY, "-m", "harness.c30", "worker", tmp, inp, outp], env=child_env(), cwd="/verif",
-                                       stdout=subprocess.PIPE, stderr=subprocess.STDOUT, text=True), outp, b, req, ans))
-        if len(procs) % par == 0:
-            for p in procs[-par:]:
-                p[0].wait()
+        procs.append((subprocess.Popen(["timeout", "900", PY, "-m", "harness.c30", "worker", tmp, inp, outp], env=child_env(),
+                                       cwd="/verif", stdout=subprocess.PIPE, stderr=subprocess.STDOUT, text=True), outp, b, req, ans))
+    return procs
+
+
+def fresh_collect(procs):
+    bad = []
     for p, outp, b, req, ans in procs:
         log, _ = p.communicate()
         got = json.load(open(outp)) if os.path.exists(outp) else ["err", "no output", log[-500:]]
@@ -933,30 +954,21 @@ def classify_nested_f30b(defs, outers, ops, upto):
     return inner in lazily
 
 
-def nested_stream(ctx, tmp, deadline):
-    rng = ctx.rng
-    nb = ctx.budget(2, 20)
-    per = 12 if ctx.tier != "thorough" else 24
-    batches = []
-    for c in ctx.corpus():
-        if c.get("stream") == "nested":
-            batches.append({"module": "c30ncorpus_%d" % len(batches), "defs": c["defs"], "outers": c["outers"],
-                            "histories": [c["history"]], "corpus": c.get("name", "nested")})
-    for bi in range(nb):
-        defs = []
-        while len(defs) < 2:
-            d = gen_def(rng, len(defs))
-            if d["shape"] != "split" or rng.random() < 0.3:
-                defs.append(d)
-        outers = [gen_outer(rng, d, i) for i, d in enumerate(defs)]
-        hists = [gen_nested_history(rng, defs, outers, rng.choice([3, 4, 5, 6])) for _ in range(per)]
-        batches.append({"module": "c30nested_%d" % bi, "defs": defs, "outers": outers, "histories": hists})
-    results = run_batches(tmp, batches, par=3, deadline=deadline, min_histories=5)
+def gen_nested_batch(rng, bi, per):
+    defs = []
+    while len(defs) < 2:
+        d = gen_def(rng, len(defs))
+        if d["shape"] != "split" or rng.random() < 0.3:
+            defs.append(d)
+    outers = [gen_outer(rng, d, i) for i, d in enumerate(defs)]
+    hists = [gen_nested_history(rng, defs, outers, rng.choice([3, 4, 5, 6])) for _ in range(per)]
+    return {"module": "c30nested_%d" % bi, "defs": defs, "outers": outers, "histories": hists, "nested": True}
+
+
+def nested_results(pairs):
     dist = {"histories": 0, "observing_ops": 0, "ops": {}, "plots_nested": 0, "differences": 0, "modules": 0}
     failures = []
-    for b, res in zip(batches, results):
-        if not res:
-            continue
+    for b, res in pairs:
         dist["modules"] += 1
         for h, r in zip(b["histories"], res):
             dist["histories"] += 1
@@ -986,29 +998,35 @@ def run(ctx):
     import time
     rng = ctx.rng
     thorough = ctx.tier == "thorough"
-    nb = ctx.budget(6, 60)                       # generated modules (one worker process each)
-    per = 20 if not thorough else 36             # histories per module
-    box = (55 if not thorough else 420) * (3 if ctx.widen > 1 else 1)   # seconds for executing histories
-    par = 4
+    nb = ctx.budget(8, 64)                       # generated modules of the modelled stream
+    nn = ctx.budget(3, 20)                       # ... of the nested stream
+    per = 16 if not thorough else 36             # histories per module
+    box = (50 if not thorough else 420) * (3 if ctx.widen > 1 else 1)   # seconds for executing histories
     tmp = tempfile.mkdtemp(prefix="c30-")
     out = Outcome(rule=RULE)
     try:
         batches = []
         for ci, c in enumerate(ctx.corpus()):
-            if c.get("stream", "model") == "model":
-                batches.append({"module": "c30corpus_%d" % ci, "defs": c["defs"], "histories": [c["history"]],
-                                "corpus": c.get("name", "corpus%d" % ci)})
-        for bi in range(nb):
-            defs = [gen_def(rng, i) for i in range(3)]
-            hists = [gen_history(rng, defs, rng.choice([3, 4, 5, 6, 6, 7])) for _ in range(per)]
-            batches.append({"module": "c30defs_%d" % bi, "defs": defs, "histories": hists})
+            nested = c.get("stream", "model") == "nested"
+            batches.append({"module": "c30corpus_%d" % ci, "defs": c["defs"], "outers": c.get("outers", []),
+                            "histories": [c["history"]], "corpus": c.get("name", "corpus%d" % ci), "nested": nested})
+        nmodel = nnest = 0
+        while nmodel < nb or nnest < nn:          # interleaved, so that a short time box reaches both streams
+            if nmodel < nb:
+                defs = [gen_def(rng, i) for i in range(3)]
+                hists = [gen_history(rng, defs, rng.choice([3, 4, 5, 6, 6, 7])) for _ in range(per)]
+                batches.append({"module": "c30defs_%d" % nmodel, "defs": defs, "histories": hists, "nested": False})
+                nmodel += 1
+            if nnest < nn and nmodel % 3 == 0 or nmodel >= nb and nnest < nn:
+                batches.append(gen_nested_batch(rng, nnest, 10 if not thorough else 24))
+                nnest += 1
         t0 = time.time()
-        results = run_batches(tmp, batches, par=par, deadline=t0 + box, min_histories=10)
+        results = run_batches(tmp, batches, par=4, deadline=t0 + box, min_histories=5)
         exec_s = time.time() - t0
         cases, meta = [], []
         dist = {"ops": {}, "shapes": {}, "histories": 0, "observing_ops": 0, "impl_errors": 0, "modules": 0,
                 "corpus_cases": sum(1 for b in batches if b.get("corpus"))}
-        used = [(b, r) for b, r in zip(batches, results) if r]
+        used = [(b, r) for b, r in zip(batches, results) if r and not b["nested"]]
         for b, res in used:
             dist["modules"] += 1
             for d in b["defs"]:
@@ -1033,14 +1051,19 @@ def run(ctx):
                 cases.append(coqio.pair(coqio.lst([c_op(op, lambda i: dn[i]) for op in h]),
                                         coqio.lst([c_obs(o) for o in obs]), coqio.lst([c_obs(o) for o in fresh])))
                 meta.append(m)
+        # the zygote oracle against really fresh interpreters (started now, collected after the Coq run)
+        items = [(m["batch"], fq, f) for m in meta for fq, f in zip(m["freqs"], m["fresh"]) if fq is not None]
+        rng.shuffle(items)
+        nf = 2 if not thorough else 16
+        fprocs = fresh_start(tmp, items[:nf])
+        dist["fresh_interpreter_rechecks"] = len(fprocs)
         defs_txt = "".join("Definition D_%s_%d : wfdef := %s.\n" % (b["module"], i, c_def(d))
                            for b, _ in used for i, d in enumerate(b["defs"]))
-        res = coqio.run_cases(ctx.scratch, "c30", IMPORTS, "case_t", cases,
-                              {"tie": "tie_ok", "spec": "spec_ok", "fresh": "fresh_ok", "dom": "in_domain",
-                               "hit": "no_hit", "sup": "no_superset"},
-                              extra=EXTRA + defs_txt, shard=50)
-        excluded = set(res["dom"])
-        hits = set(res["hit"])
+        t1 = time.time()
+        codes = coqio.run_case_codes(ctx.scratch, "c30", IMPORTS, "case_t", cases, "code", extra=EXTRA + defs_txt, shard=60)
+        coq_s = time.time() - t1
+        bit = lambda k: {i for i, c in enumerate(codes) if c & k}   # noqa: E731
+        tie_bad, spec_bad, fresh_bad, excluded, hits, sups = bit(1), bit(2), bit(4), bit(8), bit(16), bit(32)
         seen, nontrivial = set(), 0
         for i, m in enumerate(meta):
             key = json.dumps([m["defs"], m["history"]], sort_keys=True)
@@ -1048,9 +1071,10 @@ def run(ctx):
                 seen.add(key)
                 nontrivial += i in hits
         dist["histories_with_cache_hit"] = len(hits)
-        dist["histories_with_superset_hit"] = len(res["sup"])
+        dist["histories_with_superset_hit"] = len(sups)
         dist["histories_in_excluded_class_F30b"] = len(excluded)
         dist["history_execution_s"] = round(exec_s, 1)
+        dist["coq_cases_s"] = round(coq_s, 1)
         out.evaluations = dist["observing_ops"]
         out.distinct_nontrivial = nontrivial
         out.traces_validated = len(meta)
@@ -1067,7 +1091,7 @@ def run(ctx):
             if classify_f30b(m["defs"], m["history"]) != (i in excluded):
                 out.failures.append(Failure(case=case, observed=classify_f30b(m["defs"], m["history"]), expected=i in excluded,
                                             kind="tie", note="F30b classifier (python) != Spec.excluded (Coq)"))
-        for i in sorted(set(res["spec"]) | pyfail)[:40]:
+        for i in sorted(spec_bad | pyfail)[:40]:
             m = meta[i]
             case = {"defs": m["defs"], "history": m["history"], "source": src_of(m["defs"])}
             known = i in excluded
@@ -1076,7 +1100,7 @@ def run(ctx):
                 expected={"fresh_process": [norm_obs(o) for o in m["fresh"]]}, kind="spec", finding="F30b" if known else None,
                 note="superset-of-lazy hit reuses a graph built while an input the constructor branches on was lazy (F30b)"
                 if known else "an observation of the history differs from what a fresh process shows"))
-        for i in res["tie"][:25]:
+        for i in sorted(tie_bad)[:25]:
             if i in excluded:
                 continue        # outside the positive theorem's domain the implementation is compared with the spec only
             m = meta[i]
@@ -1084,28 +1108,18 @@ def run(ctx):
                                         observed=[norm_obs(o) for o in m["observed"]],
                                         expected="Model.WfCache.c_history of the case (./check C30 --replay <file>)",
                                         kind="tie", note="model/implementation"))
-        for i in res["fresh"][:25]:
+        for i in sorted(fresh_bad)[:25]:
             m = meta[i]
             out.failures.append(Failure(case={"defs": m["defs"], "history": m["history"], "source": src_of(m["defs"])},
                                         observed=[norm_obs(o) for o in m["fresh"]],
                                         expected="Spec.WfCache.c_spec_history of the case (./check C30 --replay <file>)",
                                         kind="tie", note="spec != what a fresh process of the implementation shows"))
         # nested workflows (outside the Coq model): history vs fresh process
-        nres = nested_stream(ctx, tmp, t0 + box + (25 if not thorough else 150))
+        nres = nested_results([(b, r) for b, r in zip(batches, results) if r and b["nested"]])
         out.failures += nres["failures"]
         dist["nested"] = nres["dist"]
         out.evaluations += nres["dist"]["observing_ops"]
-        # the zygote oracle against really fresh interpreters
-        items = []
-        for m in meta:
-            for fq, f in zip(m["freqs"], m["fresh"]):
-                if fq is not None:
-                    items.append((m["batch"], fq, f))
-        rng.shuffle(items)
-        nf = 3 if not thorough else 16
-        bad = fresh_interpreter_sample(tmp, items[:nf])
-        dist["fresh_interpreter_rechecks"] = min(nf, len(items))
-        for b, req, ans, got in bad:
+        for b, req, ans, got in fresh_collect(fprocs):
             out.failures.append(Failure(case={"defs": b["defs"], "request": req, "source": src_of(b["defs"])}, observed=got,
                                         expected=ans, kind="tie", note="forked-zygote oracle != a really fresh interpreter"))
         out.distribution = dist
